@@ -49,7 +49,10 @@ def run_one(w, name, patch, props, tier="quick"):
         env2 = dict(os.environ, VCHECK_HARNESS=os.path.join(w, "harness"), VCHECK_TARGET=os.path.join(w, "target"), VCHECK_OUT=os.path.join(w, "out"))
         for pid in props:
             t0 = time.time()
-            rc, out = sh([os.path.join(V, "check"), "run", pid, "--tier", tier], cwd=V, env=env2)
+            try:
+                rc, out = sh([os.path.join(V, "check"), "run", pid, "--tier", tier], cwd=V, env=env2, timeout=1500 if tier == "quick" else 7200)
+            except subprocess.TimeoutExpired:
+                rc, out = -9, "TIMEOUT"
             sigs = [l.strip()[len("signature: "):] for l in out.splitlines() if l.strip().startswith("signature:")]
             res["checks"][pid] = {"rc": rc, "s": round(time.time() - t0, 1), "signatures": sigs[:4],
                                   "tail": "" if rc == 1 else out[-400:]}
